@@ -831,6 +831,7 @@ def replay_file(args):
     path, seed, backends, opts = args
     t0 = time.time()
     rp = Replayer(seed, backends=tuple(backends), opts=opts)
+    rp.R.ALT_FORMS = bool(opts.get("alt"))
     # "generic": casts to float name the generic type Float() instead of Float64() (only used by the typed alphabet of C12, whose
     # float casts are the implicit conversions Int -> Float; String -> Float() is documented for Float32 / Float64 only)
     rp.R.PDT_TYPES.update({"int": rp.R.pdt.Int64, "float": rp.R.pdt.Float} if opts.get("generic") else {"int": rp.R.pdt.Int64, "float": rp.R.pdt.Float64})
